@@ -225,3 +225,31 @@ Qed.
 Lemma datediff_go_saturates :
   datediff_go (2337, 10, 4) (1964, 2, 21) = 106752 /\ datediff (2337, 10, 4) (1964, 2, 21) = 136461.
 Proof. split; vm_compute; reflexivity. Qed.
+
+(* sub-day intervals: adding then subtracting any number of microseconds (hence seconds, minutes, hours)
+   restores the moment, across day, month, year and epoch boundaries *)
+Theorem add_sub_us_inverse dt tod n :
+  valid_date dt = true -> 0 <= tod < usday ->
+  let '(d1, t1) := add_us dt tod n in add_us d1 t1 (- n) = (dt, tod).
+Proof.
+  intros Hv Ht. unfold add_us. set (tot := days_from_civil dt * usday + tod + n).
+  rewrite (proj1 (days_civil_days _)).
+  assert (Hu : 0 < usday) by (unfold usday; lia).
+  pose proof (Z.div_mod tot usday ltac:(lia)) as Hdm.
+  replace (tot / usday * usday + tot mod usday + - n) with (tod + days_from_civil dt * usday) by (unfold tot in *; lia).
+  rewrite Z.div_add, Z.mod_add by lia. rewrite Z.div_small, Z.mod_small by lia.
+  rewrite Z.add_0_l. rewrite civil_days_civil by exact Hv. reflexivity.
+Qed.
+
+Theorem add_us_value dt tod n :
+  0 <= tod < usday ->
+  let '(d1, t1) := add_us dt tod n in 0 <= t1 < usday /\ days_from_civil d1 * usday + t1 = days_from_civil dt * usday + tod + n.
+Proof.
+  intros Ht. unfold add_us. set (tot := days_from_civil dt * usday + tod + n).
+  assert (Hu : 0 < usday) by (unfold usday; lia).
+  rewrite (proj1 (days_civil_days _)). pose proof (Z.div_mod tot usday ltac:(lia)). pose proof (Z.mod_pos_bound tot usday Hu). lia.
+Qed.
+
+(* DATEDIFF ignores the time parts, before and after 1970 alike *)
+Theorem datediff_dt_ignores_time a ta b tb : datediff_dt a ta b tb = datediff_go a b.
+Proof. reflexivity. Qed.
